@@ -185,6 +185,25 @@ fn gen_proj(t: &mut Tape) -> Proj {
         files.push(FileSpec { rel: "za.circom".into(), includes: inc, templates: vec![format!("T{}x0", base + 3)], functions: vec![], pragma: 0, uses_included: false });
         shadow_includer = Some(base + 3);
     }
+    // A cycle whose edges all resolve through the library directory: `lib/deep/zc1.circom` and
+    // `lib/deep/zc2.circom` include each other as `deep/zc?.circom` (no such path next to them), and a
+    // named file in the root reaches them the same way.
+    let mut cycle_entry: Option<usize> = None;
+    if libs.iter().any(|l| l == "lib") && t.chance(60) {
+        let base = files.len();
+        let spec = |rel: &str, inc: &str, k: usize| FileSpec {
+            rel: rel.into(),
+            includes: vec![inc.into()],
+            templates: vec![format!("T{k}x0")],
+            functions: vec![],
+            pragma: 0,
+            uses_included: false,
+        };
+        files.push(spec("lib/deep/zc1.circom", "deep/zc2.circom", base));
+        files.push(spec("lib/deep/zc2.circom", "deep/zc1.circom", base + 1));
+        files.push(spec("zcm.circom", "deep/zc1.circom", base + 2));
+        cycle_entry = Some(base + 2);
+    }
     let n = files.len();
     // named files
     let mut named = Vec::new();
@@ -213,13 +232,18 @@ fn gen_proj(t: &mut Tape) -> Proj {
             named.push((a, files[a].rel.clone()));
         }
     }
+    if let Some(a) = cycle_entry {
+        if !named.iter().any(|(j, _)| *j == a) {
+            named.push((a, files[a].rel.clone()));
+        }
+    }
     let absolute_args = t.chance(100);
     // a directory as argument (alone or next to files): "." is the whole project
     let mut named_dirs = Vec::new();
     if t.chance(50) {
         let d = ["sub", "sub/deep", "lib", ".", "lib2"][t.below(5)];
         named_dirs.push(d.to_string());
-        if t.chance(128) && shadow_includer.is_none() {
+        if t.chance(128) && shadow_includer.is_none() && cycle_entry.is_none() {
             named.clear();
         }
     }
@@ -460,6 +484,9 @@ fn check_project_in(ctx: &Ctx, p: &Proj, rec: &Rec, root: &Path) -> Verdict {
         }
         if p.files.iter().any(|f| f.rel == "za.circom") {
             rec.class("projects_with_library_file_shadowed_by_a_sibling");
+        }
+        if p.files.iter().any(|f| f.rel == "zcm.circom") {
+            rec.class("projects_with_a_cycle_through_the_library_directory");
         }
     }
     if p.files.iter().any(|f| f.includes.iter().any(|i| !i.contains('/') || i.contains("/../"))) && !p.libs.is_empty() {
